@@ -166,6 +166,14 @@ def gen_cases(draw):
         # decimal and non-decimal grids (0.25, 0.2, 0.05 ...): the declared precision is a step, not a digit count
         prec = [draw(st.sampled_from([1e-1, 1e-2, 1e-3, 0.5, 1.0, 1e-6, 0.25, 0.2, 0.05, 0.125, 2.0]))
                 for _ in range(n)]
+        if n >= 2 and draw(st.booleans()):
+            # heterogeneous declarations: only some parameters declare a precision (the others keep the default), and
+            # the undeclared ones get boxes that sit on no coarse grid
+            for j in range(n):
+                if j != 0 and draw(st.booleans()):
+                    prec[j] = None
+                    lo = draw(st.sampled_from([0.3, -0.77, 1.0 / 3.0, 17.23]))
+                    boxes[j] = [lo, lo + draw(st.sampled_from([0.2, 0.37, 0.05]))]
     return {"kind": kind, "boxes": boxes, "prec": prec, "number": draw(st.integers(1, 12)),
             "k": draw(st.integers(2, 4)), "seed": draw(st.integers(0, 2 ** 31)), "names": draw(st.sampled_from(NAME_STYLES))}
 
@@ -212,7 +220,7 @@ def check_generator(case):
     ps = []
     for i, b in enumerate(boxes):
         p = {"name": pname(i, case.get("names", "x")), "bounds": list(b)}
-        if case["prec"]:
+        if case["prec"] and case["prec"][i]:
             p["precision"] = case["prec"][i]
         ps.append(p)
     seed_all(case["seed"])
@@ -230,7 +238,7 @@ def check_generator(case):
         for j, (x, (lb, ub)) in enumerate(zip(v, boxes)):
             x = float(x)
             tol = 1e-12 + 4 * ulp(max(abs(lb), abs(ub)))
-            if case["prec"]:
+            if case["prec"] and case["prec"][j]:
                 tol = case["prec"][j] / 2 + 4 * ulp(max(abs(lb), abs(ub), case["prec"][j]))
             if x != x or not (lb - tol <= x <= ub + tol):
                 raise Violation("generators", "%s:out-of-box" % kind, "coordinate %r outside [%r, %r] (tol %g), box %r" % (
